@@ -26,3 +26,20 @@ Definition ren_conf (f : Z -> Z) (r : conf_res) : conf_res :=
   | ConfOk l => ConfOk (map (fun ap => (fst ap, map (map (fun ns => (f (fst ns), snd ns))) (snd ap))) l)
   | other => other
   end.
+
+(** ** Renaming along an arbitrary injective map.  An undirected pair is stored under (min, max), so after renaming
+    the endpoints the key has to be re-normalised ([rk]); on the digraph [rk] is [rp].  For strictly increasing [f]
+    and normalised keys, [renI] is [ren]. *)
+Definition inj (f : Z -> Z) : Prop := forall x y, f x = f y -> x = y.
+Definition rk (d : bool) (f : Z -> Z) (k : Z * Z) : Z * Z := nk d (f (fst k)) (f (snd k)).
+Definition renI_event (d : bool) (f : Z -> Z) (e : event) : event := match e with (t, k, op) => (t, rk d f k, op) end.
+Definition renI (f : Z -> Z) (g : graph) : graph :=
+  mkG (g_dir g) (g_rem g)
+      (map (fun na => (f (fst na), snd na)) (g_nodes g))
+      (map (fun kt => (rk (g_dir g) f (fst kt), snd kt)) (g_edges g))
+      (map (renI_event (g_dir g) f) (g_events g))
+      (g_snaps g) (g_attr g) (g_frozen g).
+(** every stored key (adjacency and event log) is in normal form: true of the empty graph and kept by every operation *)
+Definition keys_norm (g : graph) : Prop :=
+  (forall k tl, In (k, tl) (g_edges g) -> nk (g_dir g) (fst k) (snd k) = k) /\
+  (forall t k op, In (t, k, op) (g_events g) -> nk (g_dir g) (fst k) (snd k) = k).
